@@ -9,6 +9,7 @@ FLAV = {
     "d": "Favour subtle changes: ones that leave the common path byte-identical and diverge only in a rarely taken branch, at larger scale, for particular size relations, or after a particular earlier event; assume a diligent reviewer will run the obvious spot checks (a handful of sizes, one crash, one re-run) and try to produce something those spot checks would miss while it still genuinely breaks the property as stated.",
     "e": "Favour changes in modules the property depends on indirectly (shared helpers, formatters, parsers, data classes, naming/sorting utilities, logging set-up) rather than at the most obvious site, and changes introduced while 'improving' performance or robustness (caching, memoisation, batching writes, reusing objects or file handles, catching exceptions).",
     "f": "Favour changes outside the most obvious function: the command-line wiring (how options are passed down, defaults, early exits), helper functions shared by several callers, module-level state, the second or third output file rather than the first, the less common input or output format, the error path rather than the success path. Each change must still break the property as stated and need something specific to show.",
+    "g": "Favour the SMALLEST possible changes - one token or one line: a flipped comparison or boundary (< vs <=, > vs >=), an off-by-one, swapped arguments, a wrong default value, a dropped `not`, `and` vs `or`, a wrong variable of the same type, a removed statement, an `if` that became unconditional - at sites the property depends on. Each must still pass all 64 tests and need something specific to show.",
 }
 T = """You are helping to evaluate a verification harness by writing *seeded defects* for an open-source Python project (sanger-tol/agp-tpf-utils: CLI utilities for AGP/TPF genome assembly files with a streaming FASTA indexer/writer). This is authorised mutation-testing work on a scratch copy; nothing you write is ever merged.
 
@@ -37,4 +38,6 @@ For each change k in 1..3 deliver, under WT/deliver/PIDTAGk/ (i.e. PIDTAG1, PIDT
 Before you finish, for every change verify yourself: (a) clean tree -> tests pass and demo passes; (b) patched tree -> tests still pass (all 64) and demo fails. Leave the worktree's src CLEAN (git checkout -- src) at the end, with only the untracked deliver/ directory added. Your final message should list the three changes in one line each with the verification results you observed.
 """
 pid, tag, wt = sys.argv[1], sys.argv[2], sys.argv[3]
+if len(sys.argv) > 4:
+    T = T.replace("produce THREE different", "produce " + sys.argv[4] + " different").replace("The three changes", "The changes").replace("k in 1..3", "k in 1.." + {"FIVE": "5", "FOUR": "4"}[sys.argv[4]]).replace("(i.e. PIDTAG1, PIDTAG2, PIDTAG3)", "(PIDTAG1, PIDTAG2, ...)").replace("list the three changes", "list the changes")
 print(T.replace("WT", wt).replace("PROP", json.dumps(props[pid], indent=1)).replace("FLAVOUR", FLAV[tag]).replace("PIDTAG", pid + tag))
